@@ -107,7 +107,7 @@ def main(tier, write_baseline=False):
         if o["name"] in seen:
             continue
         seen.add(o["name"])
-        run.violation(o["name"], "obligation refuted by %s on path %s" % (o["backend"], " ".join(o["trace"])), failing_input=(optional_prose_replay() if "optional-from-prose" in o["name"] else (interpolate_replay() if "interpolate_defaults" in o["name"] else None)) or common.model_replay("contracts.C02", o),
+        run.violation(o["name"], "obligation refuted by %s on path %s" % (o["backend"], " ".join(o["trace"])), failing_input=(optional_prose_replay() if "optional-from-prose" in o["name"] else (interpolate_replay() if "interpolate_defaults" in o["name"] else (common.infer_default_replay() if "_infer_default" in o["name"] else None))) or common.model_replay("contracts.C02", o),
                       solver_output={"model": o["model"], "smt2": (o["smt2"] or "")[:4000]})
     M.report(run, "C02/bounded", fails)
     M.flush_raise_baseline()
